@@ -96,6 +96,9 @@ pub struct Ctx {
     pub scale_pct: u64,
     /// run only the cases [first, first+count) of each selected part (sharded sanitizer runs)
     pub case_range: Option<(u64, u64)>,
+    /// stop handing out new cases of a part after this many seconds of wall time (coverage only;
+    /// never part of a verdict) - used by the slow sanitizer shards
+    pub budget_s: Option<u64>,
 }
 
 impl Ctx {
@@ -339,6 +342,11 @@ where
                     if i >= n {
                         break;
                     }
+                    if let Some(b) = ctx.budget_s {
+                        if i > first && t0.elapsed().as_secs() >= b {
+                            break;
+                        }
+                    }
                     let out = run_one(ctx, &key, i, &f);
                     local.push((i, out));
                     if local.len() >= 256 {
@@ -362,6 +370,59 @@ where
             .set("part", Json::s(part))
             .set("case", Json::u(v.1))
             .set("detail", d);
+    }
+    sum.wall_s = t0.elapsed().as_secs_f64();
+    sum
+}
+
+/// Budgeted, single-worker variant for the slow sanitizer shards: cases run one after the other on
+/// a helper thread; after `budget_s` no new case is started, and a case still running at twice
+/// the budget is abandoned (its observations are simply missing - the budget limits coverage and
+/// is never part of a verdict).
+pub fn run_cases_budgeted(ctx: &Ctx, part: &str, n: u64, f: fn(u64, &mut Rng, &Ctx) -> CaseOut) -> Summary {
+    let t0 = Instant::now();
+    let budget = ctx.budget_s.unwrap_or(u64::MAX / 4);
+    let (first, n) = match ctx.case_range {
+        Some((a, c)) => (a.min(n), (a + c).min(n)),
+        None => (0, n),
+    };
+    let key = format!("{}/{}", ctx.prop, part);
+    let (tx, rx) = std::sync::mpsc::channel::<(u64, CaseOut)>();
+    let c2 = ctx.clone();
+    let worker = std::thread::Builder::new().stack_size(16 << 20).spawn(move || {
+        let t = Instant::now();
+        for i in first..n {
+            if i > first && t.elapsed().as_secs() >= budget {
+                break;
+            }
+            let out = run_one(&c2, &key, i, &f);
+            if tx.send((i, out)).is_err() {
+                break;
+            }
+        }
+    });
+    let mut sum = Summary::new(ctx);
+    if worker.is_err() {
+        sum.harness_errors.push("cannot spawn the worker thread".into());
+        return sum;
+    }
+    let hard = std::time::Duration::from_secs(budget.saturating_mul(2));
+    loop {
+        let left = hard.checked_sub(t0.elapsed()).unwrap_or_default();
+        match rx.recv_timeout(left.max(std::time::Duration::from_millis(10))) {
+            Ok((i, out)) => sum.absorb(i, out),
+            Err(std::sync::mpsc::RecvTimeoutError::Disconnected) => break,
+            Err(std::sync::mpsc::RecvTimeoutError::Timeout) => {
+                if t0.elapsed() >= hard {
+                    sum.extra.push(("case_abandoned_at_twice_the_budget".into(), Json::Bool(true)));
+                    break;
+                }
+            }
+        }
+    }
+    for (_, v) in sum.violations.iter_mut() {
+        let d = std::mem::replace(&mut v.2.detail, Json::Null);
+        v.2.detail = Json::obj().set("part", Json::s(part)).set("case", Json::u(v.1)).set("detail", d);
     }
     sum.wall_s = t0.elapsed().as_secs_f64();
     sum
